@@ -99,7 +99,11 @@ def classes():
             if HCommand.gate is not None:
                 await HCommand.gate(key)
             else:
-                for _ in range(HCommand.delay() if HCommand.delay else 1):
+                if HCommand.delay:
+                    # jobs take a (seeded) real amount of time, so that jobs of one step really overlap and finish
+                    # out of order (scheduling a job costs several database round trips)
+                    await asyncio.sleep(HCommand.delay())
+                else:
                     await asyncio.sleep(0)
             if key in HCommand.fail:
                 out = CommandOutput("injected failure", Status.FAILED)
@@ -355,7 +359,7 @@ async def run_once(desc, seed=None, K=3, timeout=60.0, gate=None, keep_db=False,
     C["HCommand"].gate = gate
     C["HCommand"].log = rec.ev
     jrng = __import__("random").Random("job%s" % seed)
-    C["HCommand"].delay = (lambda: jrng.randint(0, 25)) if seed is not None else None
+    C["HCommand"].delay = (lambda: jrng.choice([0.0, 0.002, 0.01, 0.03, 0.06])) if seed is not None else None
     undo = []
     out = {"desc": desc}
     try:
